@@ -29,6 +29,7 @@ func runC13(c *Ctx) {
 	c.Clause("C13.4 run loop: the blocking select has close and timer cases; handshake timeout and idle checks reach destroyImpl")
 	c.Clause("C13.5 0-RTT rejection resets streams map, framer, connection flow controller and sent-packet state")
 	c.Clause("C13.6 ResetForRetry requeues the outstanding 0-RTT packets on every path")
+	c.Clause("C13.12 a spec-built Initial packet travels alone: nothing is appended behind it and no other payload is taken on a path that builds it")
 	c.Clause("C13.11 PopulateFromUQUIC stores nothing of the connection into the shared spec's transport-parameter slice (a spec serves many connections, incl. the re-dial after Version Negotiation)")
 	c.Clause("C13.10 DropPackets(0-RTT): every packet taken out of bytes in flight is also removed from the history")
 	c.Clause("C13.9 every change of Conn.handshakeDestConnID (Retry, first Handshake packet, corrupted first Initial) is followed by connIDManager.ChangeInitialConnID")
@@ -48,6 +49,7 @@ func runC13(c *Ctx) {
 	c.rule("C13.9", func() { c01HandshakeDestConnIDPair(c, "C13.9") })
 	c.rule("C13.10", func() { c13Rejected0RTTRemoved(c) })
 	c.rule("C13.11", func() { c13SpecNotWrittenPerConnection(c) })
+	c.rule("C13.12", func() { c13SpecInitialTravelsAlone(c) })
 }
 
 func c13Retry(c *Ctx) {
